@@ -100,6 +100,7 @@ class OracleRunner(kscript.Runner):
         self.rec = []           # chronological records
         self.processed = {}     # label -> (seqno, now, ok, value)
         self.conds = {}         # label -> (kind, [operand events])
+        self.cond_pre = {}      # label -> [operand already processed at construction]
         self.seqno = 0
 
     def _tick(self):
@@ -130,6 +131,7 @@ class OracleRunner(kscript.Runner):
         elif what == 'cond':
             ev, kind, evs = a
             self.conds[self.lab(ev)] = (kind, list(evs), self.env.now, self._tick())
+            self.cond_pre[self.lab(ev)] = [e.callbacks is None for e in evs]      # what the constructor saw
 
 
 def same_outcome(ev_ok, ev_val, got_ok, got):
@@ -160,17 +162,35 @@ def instrumented(case):
     return r
 
 
+def lost_waiters(r, waiting, ext):
+    """processes still suspended at the end of the run on an event that was processed after they yielded it"""
+    for name, y in waiting.items():
+        _, yseq, _, lab, ynow, was_processed, ev = y
+        p = r.processed.get(lab)
+        if p is not None and not was_processed and p[0] > yseq and lab not in ext:
+            return [{'what': f'process {name[0]} yielded event e{lab} at {ynow}; the event was processed at {p[1]} but the process was never '
+                             f'resumed (a waiter registered at that moment was not invoked)', 'signature': 'c02-waiter-lost'}]
+    return []
+
+
 def oracle_c02(case, lines, runner=None):
     """every waiter receives the awaited event's outcome exactly once, at the instant it is processed (or at once if it
     already was); second triggers are refused; an unhandled failure surfaces"""
-    if case.mode != 'step':
-        return []
     r = instrumented(case)
     if r.out_of_scope:
         return []
     fails = []
     waiting = {}
     ext = externally_triggered(r)
+    if case.mode != 'step':
+        # split plans: only the clause that no stop may lose a waiter (every process waiting on an event when it is
+        # processed is invoked); the other clauses are judged on uninterrupted runs
+        for rec in r.rec:
+            if rec[0] == 'yield':
+                waiting[rec[2]] = rec
+            elif rec[0] == 'resumed':
+                waiting.pop(rec[2], None)
+        return lost_waiters(r, waiting, ext)
     for rec in r.rec:
         if rec[0] == 'yield':
             waiting[rec[2]] = rec
@@ -202,6 +222,7 @@ def oracle_c02(case, lines, runner=None):
             if was != raised:
                 fails.append({'what': f'succeed/fail on e{lab} (already triggered: {was}) {"raised" if raised else "did not raise"} RuntimeError',
                               'signature': 'c02-trigger-once'}); break
+    fails += lost_waiters(r, waiting, ext)
     # failures are never lost: a processed failed event is either defused or made the run raise its exception
     xs = [l for l in lines if l.startswith('X ')]
     failed_types = {type(ev._value).__name__ for ev in r.keep if getattr(ev, '_ok', True) is False}
@@ -317,6 +338,22 @@ def oracle_c05(case, lines, runner=None):
             want = min([x[0] for x in done], default=t_created) if (done or not ops) else None
         if not ops:
             want = t_created
+        # sequence keys: operands processed before construction are checked by the constructor in operand order
+        keyed = []
+        for i, e in enumerate(ops):
+            q = r.processed.get(r.lab(e))
+            if q is not None:
+                keyed.append(((0, i) if r.cond_pre[lab][i] else (1, q[0]), q[2], e))
+        if kind == 'allof':
+            sat = max([k for k, _, _ in keyed], default=(0, -1)) if len(keyed) == len(ops) else None
+        else:
+            sat = min([k for k, _, _ in keyed], default=None) if ops else (0, -1)
+        early = [(k, e) for k, okk, e in keyed if not okk and (sat is None or k <= sat)]
+        if pok and early and not any(type(e).__name__ in ('AllOf', 'AnyOf', 'Condition') for e in ops):
+            k, e = min(early, key=lambda t: t[0])
+            fails.append({'what': f'{kind} e{lab} over operands {[r.lab(x) for x in ops]} succeeded although operand e{r.lab(e)} had failed '
+                                  f'before the condition was met (the condition must fail with that exception)',
+                          'signature': 'c05-failure-not-forwarded'}); break
         if pok:
             if want is None or pnow != want:
                 fails.append({'what': f'{kind} e{lab} over operands {[r.lab(e) for e in ops]} was processed at {pnow}; its predicate first holds at {want}',
